@@ -56,19 +56,19 @@ var c17CertLines = func() []string {
 func c17Answers() map[string]answer {
 	l := c17CertLines
 	m := map[string]answer{
-		"ok1":          {Kind: "ok", Key: l[1] + "\n"},
-		"ok2":          {Kind: "ok", Key: l[0] + "\n" + l[2] + "\n"},
-		"ok3":          {Kind: "ok", Key: l[3] + "\n" + l[1] + "\n" + l[0]},
-		"unavailable":  {Kind: "status", Code: codes.Unavailable},
-		"internal":     {Kind: "status", Code: codes.Internal},
-		"invalidarg":   {Kind: "status", Code: codes.InvalidArgument},
-		"permission":   {Kind: "status", Code: codes.PermissionDenied},
-		"unknown":      {Kind: "status", Code: codes.Unknown},
-		"exhausted":    {Kind: "status", Code: codes.ResourceExhausted},
-		"empty-key":    {Kind: "ok", Key: ""},
-		"bad-key":      {Kind: "ok", Key: "this is not key material\nneither is this\n"},
-		"mixed":        {Kind: "ok", Key: "garbage line\n" + l[2] + "\n# comment\n" + l[1] + "\nmore garbage"},
-		"block":        {Kind: "block", Block: 20 * time.Second},
+		"ok1":         {Kind: "ok", Key: l[1] + "\n"},
+		"ok2":         {Kind: "ok", Key: l[0] + "\n" + l[2] + "\n"},
+		"ok3":         {Kind: "ok", Key: l[3] + "\n" + l[1] + "\n" + l[0]},
+		"unavailable": {Kind: "status", Code: codes.Unavailable},
+		"internal":    {Kind: "status", Code: codes.Internal},
+		"invalidarg":  {Kind: "status", Code: codes.InvalidArgument},
+		"permission":  {Kind: "status", Code: codes.PermissionDenied},
+		"unknown":     {Kind: "status", Code: codes.Unknown},
+		"exhausted":   {Kind: "status", Code: codes.ResourceExhausted},
+		"empty-key":   {Kind: "ok", Key: ""},
+		"bad-key":     {Kind: "ok", Key: "this is not key material\nneither is this\n"},
+		"mixed":       {Kind: "ok", Key: "garbage line\n" + l[2] + "\n# comment\n" + l[1] + "\nmore garbage"},
+		"block":       {Kind: "block", Block: 20 * time.Second},
 		// unusually long but legal lines: a certificate line of about 100 KiB (long comment), alone, after and before
 		// ordinary lines (readers with a per-line limit stop there)
 		"long-only":    {Kind: "ok", Key: l[1] + " " + strings.Repeat("c", 100<<10) + "\n"},
